@@ -214,7 +214,7 @@ def main(argv=None):
     tb = [
         "Coq 8.16.1 kernel (coqc; thorough tier re-checks with coqchk); no native_compute",
         "axioms reported by Print Assumptions: " + (", ".join(proof["axioms"]) if proof["axioms"] else "none (Closed under the global context)"),
-        "translator/py2coq.py (scalar layer regenerated from /repo on this run, tied by Proofs/GenTie.v)",
+        "translator/py2coq.py + pins.py (scalar layer, tables and the statements of every transcribed function regenerated from /repo on this run; tied by Proofs/GenTie.v, Proofs/Tie*.v, Proofs/Pin*.v)",
         "extraction: ExtrOcamlBasic only, no Extract Constant/Inductive of ours; ocaml/driver.ml (parsing/printing)",
         "correspondence harness: generators, canonicalisation, comparators (harness/)",
     ] + LEVELS[pid].get("trusted", [])
